@@ -160,11 +160,17 @@ pub fn arb_state_shaped(max: u16, manual_acks: bool, presence: Option<u16>) -> (
 
 /// read the real state back into a ghost view (concrete indices only)
 pub fn snapshot(st: &mut MqttState, max: u16) -> Snap {
+    snapshot_with(st, max, true)
+}
+
+/// `fixed_window == false`: the step may legitimately renegotiate the window (CONNACK
+/// receive-maximum); the caller asserts what it may become.
+pub fn snapshot_with(st: &mut MqttState, max: u16, fixed_window: bool) -> Snap {
     let coll = st.collision.as_ref().map(view);
     let await_pingresp = st.await_pingresp;
     let cpc = st.collision_ping_count;
     let (last_pkid, inflight, max_inflight, _upper, opub, orel, ipub) = st.verif_fields();
-    assert!(*max_inflight == max, "INV: max_inflight changed");
+    assert!(!fixed_window || *max_inflight == max, "INV: max_inflight changed");
     assert!(opub.len() == max as usize + 1, "INV: table size changed");
     let mut s = Snap {
         max,
@@ -694,6 +700,75 @@ pub fn step_in_misc(max: u16) {
     core::mem::forget(pkt);
 }
 
+/// CONNACK (success) with the MQTT 5 receive-maximum / topic-alias-maximum properties: the
+/// negotiated window may only shrink below the configured one, never grow past it (the slot
+/// table is sized by the configured limit), and nothing else in the bookkeeping moves.
+pub fn step_in_connack(max: u16, with_props: bool) {
+    let (mut st, pre) = arb_state(max, kani::any());
+    let receive_max: Option<u16> = kani::any();
+    let topic_alias_max: Option<u16> = kani::any();
+    let properties = if with_props {
+        Some(ConnAckProperties {
+            session_expiry_interval: None,
+            receive_max,
+            max_qos: None,
+            retain_available: None,
+            max_packet_size: None,
+            assigned_client_identifier: None,
+            topic_alias_max,
+            reason_string: None,
+            user_properties: Vec::new(),
+            wildcard_subscription_available: None,
+            subscription_identifiers_available: None,
+            shared_subscription_available: None,
+            server_keep_alive: None,
+            response_information: None,
+            server_reference: None,
+            authentication_method: None,
+            authentication_data: None,
+        })
+    } else {
+        None
+    };
+    let pkt = Packet::ConnAck(ConnAck { session_present: kani::any(), code: ConnectReturnCode::Success, properties });
+    let r = st.handle_incoming_packet(pkt.clone());
+    let (ev, nev) = drain_events(&mut st);
+    let (window, upper) = {
+        let (_l, _i, window, upper, _p, _r, _ip) = st.verif_fields();
+        (*window, *upper)
+    };
+    let post = snapshot_with(&mut st, max, false);
+    'step: {
+    assert!(nev == 1 && first_is_incoming(&ev, &pkt), "C10: received packet not surfaced exactly once");
+    assert!(matches!(r, Ok(None)), "C10: no reply expected");
+    assert!(post == pre, "C10: bookkeeping touched");
+    assert!(upper == max, "C07: the configured in-flight limit must not move");
+    assert!(window <= max, "C07: the negotiated window exceeds the configured in-flight limit");
+    if with_props {
+        if let Some(rm) = receive_max {
+            assert!(window <= rm, "C07: the negotiated window exceeds the broker's receive maximum");
+            assert!(window == rm || window == max, "C07: the negotiated window is neither the receive maximum nor the configured limit");
+        }
+    }
+    check_inv(&post);
+    kani::cover!(!with_props || receive_max == Some(1), "receive maximum below the configured limit");
+    kani::cover!(!with_props || receive_max == Some(0xFFFF), "receive maximum above the configured limit");
+    kani::cover!(!with_props || receive_max.is_none(), "no receive maximum");
+    }
+    core::mem::forget(r);
+    core::mem::forget(ev);
+    core::mem::forget(st);
+    core::mem::forget(pkt);
+}
+
+pub fn step_in_connack_props(max: u16) {
+    step_in_connack(max, true)
+}
+
+pub fn step_in_connack_noprops(max: u16) {
+    step_in_connack(max, false)
+}
+
 // ---------------------------------------------------------------------------------------------
 // connection failure: clean() and session-present replay
 
@@ -830,6 +905,8 @@ v5_steps! {
     in_publish_m2: step_in_publish(2), 6;
     in_pubrel_m2: step_in_pubrel(2), 6;
     in_misc_m2: step_in_misc(2), 6;
+    in_connack_m2: step_in_connack_props(2), 6;
+    in_connack_noprops_m2: step_in_connack_noprops(2), 6;
     clean_replay_m1: step_clean_replay(1), 8;
     clean_replay_m2: step_clean_replay(2), 20;
 }
